@@ -271,6 +271,7 @@ func TestC11(t *testing.T) {
 		return
 	}
 	avoid := pbt.AvoidTags("C11")
+	c.SetRecheck(func(k any) []pbt.Violation { return evalC11(k.(c11Case)) })
 	c.ReplayKnown(t, func(raw json.RawMessage) []pbt.Violation {
 		var k c11Case
 		_ = json.Unmarshal(raw, &k)
